@@ -90,6 +90,8 @@ type ContractTable struct {
 	InitFacts map[string][]Clause // "pkgname.global" -> facts established by the package initialiser (assumed)
 	TrustFrame map[string]bool // package paths whose uncontracted functions get an assumed empty frame
 	Refines    []Refine
+	Volatile   map[string]bool // names of volatile ghost fields (any.<name>)
+	Balanced   map[string]bool // names of balanced ghost counters (any.<name>)
 }
 
 // Refine: a declared refinement of an interface method contract by a concrete method's contract.
@@ -263,6 +265,28 @@ func (ct *ContractTable) loadContractFile(path string) error {
 		case "ghostfield":
 			// ghostfield pkg.Type.name Type
 			// ghostfield pkg.Type.name Type [= default]
+			if len(fields) == 4 && fields[1] == "balanced" && strings.HasPrefix(fields[2], "any.") {
+				// ghostfield balanced any.name Type: a ghost counter (locks held) that every function
+				// must leave as it found it - at every return and around every loop iteration - unless
+				// its contract lists it under modifies; writing it needs no frame permission
+				if ct.Balanced == nil {
+					ct.Balanced = map[string]bool{}
+				}
+				ct.Balanced[strings.TrimPrefix(fields[2], "any.")] = true
+				ct.GhostFields[fields[2]] = fields[3]
+				continue
+			}
+			if len(fields) == 4 && fields[1] == "volatile" && strings.HasPrefix(fields[2], "any.") {
+				// ghostfield volatile any.name Type: a ghost that any call may change (it is forgotten at
+				// every call unless the callee's contract says what it becomes); writing it needs no frame
+				// permission. Used for "the call just made succeeded" style facts.
+				if ct.Volatile == nil {
+					ct.Volatile = map[string]bool{}
+				}
+				ct.Volatile[strings.TrimPrefix(fields[2], "any.")] = true
+				ct.GhostFields[fields[2]] = fields[3]
+				continue
+			}
 			if len(fields) == 5 && fields[3] == "=" {
 				ct.GhostDefaults[fields[1]] = fields[4]
 			} else if len(fields) != 3 {
@@ -369,10 +393,15 @@ func (ct *ContractTable) loadContractFile(path string) error {
 				}
 			case "typefact":
 				// typefact plainjson <Type>
-				if len(fields) != 3 || fields[1] != "plainjson" {
-					return fmt.Errorf("%s:%d: bad typefact clause (known kind: plainjson)", path, rl.line)
+				switch {
+				case len(fields) == 3 && fields[1] == "plainjson":
+					cur.TypeFacts = append(cur.TypeFacts, [2]string{fields[1], fields[2]})
+				case len(fields) == 4 && fields[1] == "method":
+					// typefact method <*pkg.T>.<m> <function key>: the method m of that type IS that function
+					cur.TypeFacts = append(cur.TypeFacts, [2]string{"method", fields[2] + " " + fields[3]})
+				default:
+					return fmt.Errorf("%s:%d: bad typefact clause (known kinds: plainjson T | method T.m key)", path, rl.line)
 				}
-				cur.TypeFacts = append(cur.TypeFacts, [2]string{fields[1], fields[2]})
 			case "before":
 				// before <calleeKey> assert [tag] expr
 				if len(fields) < 4 || fields[2] != "assert" {
